@@ -267,7 +267,10 @@ def check_estimators(ck: Checker, prog: Program, rule: str):
     x = sp.Symbol("x", positive=True)
     want_pre = {("normal", "mean"): x, ("normal", "std"): x, ("lognormal", "mean"): sp.log(x), ("lognormal", "std"): sp.log(x)}
     want_post = {("normal", "mean"): x, ("normal", "std"): x, ("lognormal", "mean"): sp.exp(x), ("lognormal", "std"): x}
+    stat_mod = prog.module("statistics")
     for tname, want in (("PRE_PROCESS_FUNCTION_MAP", want_pre), ("POST_PROCESS_FUNCTION_MAP", want_post)):
+        if tname not in stat_mod.symbols:
+            continue            # no such table (e.g. a ladder in the factory): the factory is examined by value below
         tab = _lambda_table(prog, tname)
         if set(tab) != set(want):
             ck.violation(rule, f"statistics.{tname}", "keys", f"table keys {sorted(tab)} != {sorted(want)}", loc="hvsrpy/statistics.py")
@@ -313,7 +316,7 @@ def check_estimators(ck: Checker, prog: Program, rule: str):
                 problems.append(f"'{key}'/{calc}: returns {str(v)[:80]}")
                 continue
             for role, want in (("pre", want_pre[(canon, calc)]), ("post", want_post[(canon, calc)])):
-                got = tidy_items(specialise(sp.Function("call")(v[iface[role]], X), world))
+                got = _apply_fn_value(prog, fac.module, v[iface[role]], X, world)
                 if not equal(got, want.xreplace({x: X})):
                     problems.append(f"'{key}'/{calc}: the {role}-processing function gives {got} for x; expected {want}")
             if iface["canon"] is not None and v[iface["canon"]] != sp.Symbol(f"'{canon}'"):
@@ -333,26 +336,53 @@ def _leaves(prog: Program, f: Func, cls: Optional[Class] = None):
     return PathTable(prog, f.module, call_hook=hook).leaves([st for st in f.node.body])
 
 
+def _apply_fn_value(prog: Program, module, fnval, arg, world):
+    """What a function value (lambda, numpy function, package function, table entry) gives for `arg` in `world`."""
+    from ..pathtable import specialise, tidy_items, apply_function_value
+    got = tidy_items(specialise(sp.Function("call")(fnval, arg), world))
+    if getattr(getattr(got, "func", None), "__name__", "") == "call" and getattr(got.args[0], "is_Symbol", False):
+        v = apply_function_value(prog, module, got.args[0].name, [arg])
+        if v is not None:
+            got = tidy_items(specialise(v, world))
+    return got
+
+
 def factory_interface(prog: Program) -> Dict[str, Optional[int]]:
     """Positions of (pre-processing function, post-processing function, canonical distribution name) in the tuple returned by
-    statistics._distribution_factory, from where each returned element comes from (the PRE / POST tables, DISTRIBUTION_MAP)."""
-    from ..dataflow import value_sources
+    statistics._distribution_factory - found by what the elements *do* for the lognormal mean (the one that takes logarithms is the
+    pre-processing function, the one that exponentiates the post-processing function, a name is the canonical name)."""
+    from ..pathtable import PathTable, outcomes, specialise, tidy_items
+    if getattr(prog, "_factory_iface", None) is not None:
+        return prog._factory_iface
     f = prog.func("statistics._distribution_factory")
-    rets = [r for r in own_nodes(f.node) if isinstance(r, ast.Return) and isinstance(r.value, ast.Tuple)]
-    if len(rets) != 1:
-        raise AnalysisError(f"{f.qualname}: expected one `return (<elements>)`, found {len(rets)}")
-    out: Dict[str, Optional[int]] = {"pre": None, "post": None, "canon": None, "n": len(rets[0].value.elts)}
-    for i, e in enumerate(rets[0].value.elts):
-        _ps, stmts = value_sources(f, e, rets[0])
-        names = {n.id for node in [e] + list(stmts) for n in ast.walk(getattr(node, "value", node) or node) if isinstance(n, ast.Name)}
-        if "PRE_PROCESS_FUNCTION_MAP" in names:
-            out["pre"] = i
-        elif "POST_PROCESS_FUNCTION_MAP" in names:
-            out["post"] = i
-        elif "DISTRIBUTION_MAP" in names:
+    allp = list(f.params) + [k for k in f.kwonly if k not in f.params]
+    if not {"distribution", "calculation"} <= set(allp):
+        raise AnalysisError(f"{f.qualname}: parameters are {allp}")
+    leaves = PathTable(prog, f.module, unroll=True).leaves(f.node.body)
+    world = {sp.Symbol("distribution", real=True): sp.Symbol("'lognormal'"), sp.Symbol("calculation", real=True): sp.Symbol("'mean'")}
+    rows = [r for r in outcomes(leaves, world) if r["exit"] == "return" and not r["failed"]]
+    if len(rows) != 1:
+        raise AnalysisError(f"{f.qualname}: {len(rows)} returning paths for the lognormal mean")
+    v = tidy_items(specialise(rows[0]["value"], world))
+    if not isinstance(v, sp.Tuple):
+        raise AnalysisError(f"{f.qualname}: does not return a tuple ({str(v)[:80]})")
+    X = sp.Symbol("x", positive=True)
+    out: Dict[str, Optional[int]] = {"pre": None, "post": None, "canon": None, "n": len(v)}
+    for i, e in enumerate(v):
+        if e == sp.Symbol("'lognormal'"):
             out["canon"] = i
+            continue
+        got = _apply_fn_value(prog, f.module, e, X, world)
+        if equal(got, sp.log(X)):
+            out["pre"] = i
+        elif equal(got, sp.exp(X)):
+            out["post"] = i
     if out["pre"] is None or out["post"] is None:
-        raise AnalysisError(f"{f.qualname}: the returned tuple does not hold the pre- and post-processing functions")
+        raise AnalysisError(f"{f.qualname}: the returned tuple does not hold the pre- and post-processing functions ({str(v)[:120]})")
+    try:
+        prog._factory_iface = out
+    except Exception:
+        pass
     return out
 
 
